@@ -58,5 +58,5 @@ def _sctransform(lib, run, recv, args, kw):
 sc_row = F('scaler_transform_row', Opaque, RSeq, RSeq)
 _ii = z3.Int('i')
 from .libcalls import mrow      # noqa
-axiom('scaler.apply.row', forall([_o, _X, _ii], mrow(sc_apply(_o, _X), _ii) == sc_row(_o, mrow(_X, _ii)),
+axiom('scaler.apply.row', forall([_o, _X, _ii], z3.Implies(z3.And(0 <= _ii, _ii < mrows(_X)), mrow(sc_apply(_o, _X), _ii) == sc_row(_o, mrow(_X, _ii))),
                                  [mrow(sc_apply(_o, _X), _ii)]), ['scaler_transform'], 'numpy')
